@@ -1,187 +1,95 @@
 import MgpuProofs.C09CUEmu
-/-! # C09, emulation compute unit — the event handlers keep the invariant -/
+/-! # C09, emulation compute unit — `processMapWGReq` and `runEmulation` keep the bookkeeping
+invariant (any event order); the time invariant `ETime` of a time-ordered engine -/
 namespace C09.CUSide
 
-theorem minOK_iff (s : Emu) (t : Nat) : minOK s t = true ↔
-    (∀ x ∈ s.ticks, t ≤ x) ∧ (∀ x ∈ s.emus, t ≤ x) ∧ (∀ p ∈ s.wgcs, t ≤ p.1) := by
-  simp [minOK, and_assoc]
+/-! ## bookkeeping: Tick and emulation event, fired at any time -/
 
-/-- the clock advances to a time no pending event precedes -/
-theorem einv_advance {s : Emu} (h : EInv s) (t : Nat) (hm : minOK s t = true) (hle : s.now ≤ t) :
-    EInv { s with now := t } := by
-  obtain ⟨m1, m2, m3⟩ := (minOK_iff s t).mp hm
-  exact ⟨h.P_pos, m1, m2, m3, h.got_nd, h.in_nd, h.in_fresh, h.q_wfs, h.wfs_got, h.fin_got,
-    h.sent_got, h.wid_got, h.q_nd, h.wfs_nd, h.fin_nd, h.wid_nd, h.sent_nd, h.wfs_fin, h.wfs_sent,
-    h.fin_sent, h.q_wid, h.wgc_ok, h.wfs_cov, h.q_emu,
-    (by
-      intro hlt
-      apply h.nt_emu
-      show s.now < s.nextTick
-      have : t < s.nextTick := hlt
-      omega),
-    h.fin_cov, h.got_cov, h.emu_sec,
-    (by
-      intro p hp hnw
-      have := h.r_soon p hp hnw
-      show p.1 ≤ t + 1
-      omega),
-    h.r_first, h.r_emu, h.r_one⟩
-
-theorem ceilP_dvd (P n : Nat) : P ∣ ceilP P n := ⟨(n + P - 1) / P, Nat.mul_comm _ _⟩
-
-theorem le_ceilP (P n : Nat) (hP : 0 < P) : n ≤ ceilP P n := by
-  unfold ceilP
-  have h1 := Nat.div_add_mod (n + P - 1) P
-  have h2 := Nat.mod_lt (n + P - 1) hP
-  have h3 : (n + P - 1) / P * P = P * ((n + P - 1) / P) := Nat.mul_comm _ _
-  omega
-
-theorem lt_ceilP (P n : Nat) (hP : 0 < P) (hnd : ¬ P ∣ n) : n < ceilP P n := by
-  have h1 := le_ceilP P n hP
-  have h2 := ceilP_dvd P n
-  rcases Nat.lt_or_ge n (ceilP P n) with h | h
-  · exact h
-  · have : ceilP P n = n := by omega
-    rw [this] at h2
-    exact absurd h2 hnd
-
-/-- `processMapWGReq` takes request `id` (not at a whole second) -/
-theorem einv_take_req {s : Emu} (h : EInv s) (id : Nat) (rest : List Nat) (hin : s.inbuf = id :: rest)
-    (hH : ¬ s.P ∣ s.now) (N' : Nat) (E' : List Nat)
-    (ha : ∀ e ∈ E', e ∈ s.emus ∨ e = ceilP s.P s.now) (hc : E' ≠ []) (hd : s.now < N' → N' ∈ E') :
-    EInv { s with inbuf := rest, nextTick := N', emus := E', queue := s.queue ++ [id],
-                  wfs := s.wfs ++ [id], got := s.got ++ [id] } := by
+/-- `processMapWGReq` takes request `id` -/
+theorem ncore_takeReq {s : Emu} (h : NCore s) (id : Nat) (rest : List Nat) (hin : s.inbuf = id :: rest) :
+    NCore { s with inbuf := rest, queue := s.queue ++ [id], wfs := s.wfs ++ [id], got := s.got ++ [id] } := by
   have hidin : id ∈ s.inbuf := by rw [hin]; simp
   have hg : id ∉ s.got := h.in_fresh id hidin
   have hnd := h.in_nd
   rw [hin] at hnd
   have hnd' := List.nodup_cons.mp hnd
   have hw : id ∉ s.wfs := fun hc => hg (h.wfs_got id hc)
-  have hq : id ∉ s.queue := fun hc => hw (h.q_wfs id hc)
   have hf : id ∉ s.finished := fun hc => hg (h.fin_got id hc)
   have hs : id ∉ flat s := fun hc => hg (h.sent_got id hc)
   have hwid : ∀ p ∈ s.wgcs, p.2 ≠ id := fun p hp hc => hg (hc ▸ h.wid_got p hp)
-  have hnotw : ∀ p ∈ s.wgcs, p.2 ∉ s.wfs ++ [id] → p.2 ∉ s.wfs := fun p _ hn hc => hn (List.mem_append_left _ hc)
-  refine ⟨h.P_pos, h.t_tick, ?_, h.t_wgc, ?_, hnd'.2, ?_, ?_, ?_, ?_, ?_, ?_, ?_, ?_, h.fin_nd, h.wid_nd,
-    h.sent_nd, ?_, ?_, h.fin_sent, ?_, ?_, ?_, fun _ => hc, hd, ?_, ?_, ?_, ?_, ?_, ?_, ?_⟩
-  · intro e he
-    rcases ha e he with he | he
-    · exact h.t_emu e he
-    · rw [he]; exact le_ceilP _ _ h.P_pos
-  · show (s.got ++ [id]).Nodup
-    rw [List.nodup_append]
-    exact ⟨h.got_nd, by simp, by intro a ha' b hb hab; simp at hb; subst hab; subst hb; exact hg ha'⟩
-  · intro x hx
-    show x ∉ s.got ++ [id]
-    intro hc'
-    rcases List.mem_append.mp hc' with hc' | hc'
+  refine ⟨nodup_snoc h.got_nd hg, hnd'.2, ?_, ?_, ?_, ?_, ?_, ?_, ?_, nodup_snoc h.wfs_nd hw, h.fin_nd,
+    h.sent_nd, ?_, ?_, h.fin_sent, ?_, ?_⟩
+  · intro x hx hc'
+    rcases mem_snoc.mp hc' with hc' | hc'
     · exact h.in_fresh x (by rw [hin]; exact List.mem_cons_of_mem _ hx) hc'
-    · simp at hc'; subst hc'; exact hnd'.1 hx
+    · subst hc'; exact hnd'.1 hx
   · intro x hx
-    show x ∈ s.wfs ++ [id]
-    rcases List.mem_append.mp hx with hx | hx
-    · exact List.mem_append_left _ (h.q_wfs x hx)
-    · exact List.mem_append_right _ hx
+    rcases mem_snoc.mp hx with hx | hx
+    · exact mem_snoc.mpr (Or.inl (h.q_wfs x hx))
+    · exact mem_snoc.mpr (Or.inr hx)
   · intro x hx
-    show x ∈ s.got ++ [id]
-    rcases List.mem_append.mp hx with hx | hx
-    · exact List.mem_append_left _ (h.wfs_got x hx)
-    · exact List.mem_append_right _ hx
-  · intro x hx; exact List.mem_append_left _ (h.fin_got x hx)
-  · intro x hx; exact List.mem_append_left _ (h.sent_got x hx)
-  · intro p hp; exact List.mem_append_left _ (h.wid_got p hp)
-  · show (s.queue ++ [id]).Nodup
-    rw [List.nodup_append]
-    exact ⟨h.q_nd, by simp, by intro a ha' b hb hab; simp at hb; subst hab; subst hb; exact hq ha'⟩
-  · show (s.wfs ++ [id]).Nodup
-    rw [List.nodup_append]
-    exact ⟨h.wfs_nd, by simp, by intro a ha' b hb hab; simp at hb; subst hab; subst hb; exact hw ha'⟩
-  · intro x hx
-    rcases List.mem_append.mp hx with hx | hx
-    · exact h.wfs_fin x hx
-    · simp at hx; subst hx; exact hf
-  · intro x hx
-    rcases List.mem_append.mp hx with hx | hx
-    · exact h.wfs_sent x hx
-    · simp at hx; subst hx; exact hs
-  · intro x hx
-    rcases List.mem_append.mp hx with hx | hx
+    rcases mem_snoc.mp hx with hx | hx
     · exact h.q_wid x hx
-    · simp at hx; subst hx
+    · subst hx
       intro hc'
       obtain ⟨p, hp, hp2⟩ := List.mem_map.mp hc'
       exact hwid p hp hp2
-  · intro p hp
-    refine ⟨(h.wgc_ok p hp).1, ?_⟩
-    rcases (h.wgc_ok p hp).2 with h1 | h1
-    · exact Or.inl (List.mem_append_left _ h1)
-    · exact Or.inr h1
   · intro x hx
-    rcases List.mem_append.mp hx with hx | hx
+    rcases mem_snoc.mp hx with hx | hx
+    · exact mem_snoc.mpr (Or.inl (h.wfs_got x hx))
+    · exact mem_snoc.mpr (Or.inr hx)
+  · intro x hx; exact mem_snoc.mpr (Or.inl (h.fin_got x hx))
+  · intro x hx; exact mem_snoc.mpr (Or.inl (h.sent_got x hx))
+  · intro p hp; exact mem_snoc.mpr (Or.inl (h.wid_got p hp))
+  · intro x hx
+    rcases mem_snoc.mp hx with hx | hx
+    · exact h.wfs_fin x hx
+    · subst hx; exact hf
+  · intro x hx
+    rcases mem_snoc.mp hx with hx | hx
+    · exact h.wfs_sent x hx
+    · subst hx; exact hs
+  · intro x hx
+    rcases mem_snoc.mp hx with hx | hx
     · rcases h.wfs_cov x hx with h1 | h1
-      · exact Or.inl (List.mem_append_left _ h1)
+      · exact Or.inl (mem_snoc.mpr (Or.inl h1))
       · exact Or.inr h1
-    · exact Or.inl (List.mem_append_right _ hx)
-  · intro _; left; simp
+    · exact Or.inl (mem_snoc.mpr (Or.inr hx))
   · intro x hx
-    rcases List.mem_append.mp hx with hx | hx
+    rcases mem_snoc.mp hx with hx | hx
     · rcases h.got_cov x hx with h1 | h1 | h1
-      · exact Or.inl (List.mem_append_left _ h1)
+      · exact Or.inl (mem_snoc.mpr (Or.inl h1))
       · exact Or.inr (Or.inl h1)
       · exact Or.inr (Or.inr h1)
-    · exact Or.inl (List.mem_append_right _ hx)
-  · intro e he
-    rcases ha e he with he | he
-    · exact h.emu_sec e he
-    · rw [he]; exact ceilP_dvd _ _
-  · intro p hp hn; exact h.r_soon p hp (hnotw p hp hn)
-  · intro p hp hn q hq' hqw
-    refine h.r_first p hp (hnotw p hp hn) q hq' ?_
-    rcases List.mem_append.mp hqw with hqw | hqw
-    · exact hqw
-    · simp at hqw; exact absurd hqw (hwid q hq')
-  · intro p hp hn _ e he
-    have h1 := h.r_soon p hp (hnotw p hp hn)
-    show p.1 ≤ e
-    rcases ha e he with he | he
-    · have h2 := h.t_emu e he
-      have h3 := h.emu_sec e he
-      have : e ≠ s.now := fun hc' => hH (hc' ▸ h3)
-      omega
-    · have := lt_ceilP s.P s.now h.P_pos hH
-      omega
-  · intro p hp hn q hq' hqn; exact h.r_one p hp (hnotw p hp hn) q hq' (hnotw q hq' hqn)
+    · exact Or.inl (mem_snoc.mpr (Or.inr hx))
 
-theorem einv_procMap {s : Emu} (h : EInv s) (hH : s.inbuf ≠ [] → ¬ s.P ∣ s.now) : EInv (procMap s) := by
+theorem ninv_procMap {s : Emu} (h : NInv s) : NInv (procMap s) := by
   unfold procMap
   split
   · exact h
   · rename_i id rest hin
-    have hH' := hH (by rw [hin]; simp)
-    have hw : id ∉ s.wfs := fun hc => h.in_fresh id (by rw [hin]; simp) (h.wfs_got id hc)
+    have hw : id ∉ s.wfs := fun hc => h.core.in_fresh id (by rw [hin]; simp) (h.core.wfs_got id hc)
     have hins : ins id s.wfs = s.wfs ++ [id] := by simp [ins, hw]
+    have h1 := ncore_takeReq h.core id rest hin
+    have key : ∀ s' : Emu, s'.inbuf = rest → s'.queue = s.queue ++ [id] → s'.wfs = s.wfs ++ [id] →
+        s'.finished = s.finished → s'.wgcs = s.wgcs → s'.sent = s.sent → s'.got = s.got ++ [id] → NInv s' := by
+      intro s' e1 e2 e3 e4 e5 e6 e7
+      refine ⟨ncore_frame h1 e1 e2 e3 e4 e5 e6 e7, ?_⟩
+      intro _
+      left
+      rw [e3]
+      simp
     dsimp only
     by_cases hc : s.nextTick ≤ s.now
     · simp only [hc, if_true, hins]
-      exact einv_take_req h id rest hin hH' (ceilP s.P s.now) (s.emus ++ [ceilP s.P s.now])
-        (by intro e he; rcases List.mem_append.mp he with he | he
-            · exact Or.inl he
-            · simp at he; exact Or.inr he)
-        (by simp) (by intro _; simp)
+      exact key _ rfl rfl rfl rfl rfl rfl rfl
     · simp only [hc, if_false, hins]
-      have hlt : s.now < s.nextTick := by omega
-      exact einv_take_req h id rest hin hH' s.nextTick s.emus (fun e he => Or.inl he)
-        (List.ne_nil_of_mem (h.nt_emu hlt)) (fun _ => h.nt_emu hlt)
+      exact key _ rfl rfl rfl rfl rfl rfl rfl
 
-/-- a Tick (`processMapWGReq`) fires -/
-theorem einv_fireTick {s : Emu} (h : EInv s) (t : Nat) (hok : EOk s (.tick t)) : EInv (fireTick s t) := by
-  obtain ⟨⟨hmem, hm⟩, hH⟩ := hok
-  have hle : s.now ≤ t := h.t_tick t hmem
-  have h1 := einv_advance h t hm hle
-  have h2 : EInv { s with ticks := s.ticks.erase t, now := t } :=
-    einv_frame h1 rfl rfl rfl rfl rfl rfl rfl rfl rfl rfl rfl
-      (fun x hx => h1.t_tick x (List.mem_of_mem_erase hx))
-  exact einv_procMap h2 hH
+/-- a Tick (`processMapWGReq`) fires, at any time -/
+theorem ninv_fireTick {s : Emu} (h : NInv s) (t : Nat) : NInv (fireTick s t) := by
+  have h2 : NInv { s with ticks := s.ticks.erase t, now := t } := ninv_frame h rfl rfl rfl rfl rfl rfl rfl
+  exact ninv_procMap h2
 
 theorem foldl_ins_of_subset : ∀ (q w : List Nat), (∀ x ∈ q, x ∈ w) → q.foldl (fun w id => ins id w) w = w
   | [], _, _ => rfl
@@ -192,87 +100,177 @@ theorem foldl_ins_of_subset : ∀ (q w : List Nat), (∀ x ∈ q, x ∈ w) → q
     rw [this]
     exact foldl_ins_of_subset q w (fun x hx => hs x (List.mem_cons_of_mem _ hx))
 
-/-- the emulation event at the current time runs every queued work-group -/
-theorem einv_runEmu {s : Emu} (h : EInv s) (hmem : s.now ∈ s.emus) :
-    EInv (runEmu { s with emus := s.emus.erase s.now }) := by
+/-- an emulation event runs every queued work-group, at any time -/
+theorem ninv_runEmu {s : Emu} (h : NInv s) : NInv (runEmu s) := by
+  have c := h.core
   unfold runEmu
-  dsimp only
-  rw [foldl_ins_of_subset s.queue s.wfs h.q_wfs]
-  have hnew : ∀ p ∈ s.queue.map (fun id => (s.now + 1, id)), p.1 = s.now + 1 ∧ p.2 ∈ s.queue := by
+  rw [foldl_ins_of_subset s.queue s.wfs c.q_wfs]
+  have hnew : ∀ p ∈ s.queue.map (fun id => (s.now + 1, id)), p.2 ∈ s.queue := by
     intro p hp
     obtain ⟨x, hx, rfl⟩ := List.mem_map.mp hp
-    exact ⟨rfl, hx⟩
-  have hretry : ∀ p ∈ s.wgcs ++ s.queue.map (fun id => (s.now + 1, id)), p.2 ∉ s.wfs → p ∈ s.wgcs := by
-    intro p hp hn
-    rcases List.mem_append.mp hp with hp | hp
-    · exact hp
-    · exact absurd (h.q_wfs _ (hnew p hp).2) hn
-  refine ⟨h.P_pos, h.t_tick, ?_, ?_, h.got_nd, h.in_nd, h.in_fresh, ?_, h.wfs_got, h.fin_got, h.sent_got,
-    ?_, List.nodup_nil, h.wfs_nd, h.fin_nd, ?_, h.sent_nd, h.wfs_fin, h.wfs_sent, h.fin_sent, ?_, ?_, ?_,
-    fun hc => absurd rfl hc, ?_, ?_, h.got_cov, ?_, ?_, ?_, ?_, ?_⟩
-  · intro e he; exact h.t_emu e (List.mem_of_mem_erase he)
-  · intro p hp
-    rcases List.mem_append.mp hp with hp | hp
-    · exact h.t_wgc p hp
-    · have := (hnew p hp).1
-      show s.now ≤ p.1
-      omega
+    exact hx
+  refine ⟨⟨c.got_nd, c.in_nd, c.in_fresh, ?_, ?_, c.wfs_got, c.fin_got, c.sent_got, ?_, c.wfs_nd, c.fin_nd,
+    c.sent_nd, c.wfs_fin, c.wfs_sent, c.fin_sent, ?_, c.got_cov⟩, ?_⟩
+  · intro x hx; cases hx
   · intro x hx; cases hx
   · intro p hp
     rcases List.mem_append.mp hp with hp | hp
-    · exact h.wid_got p hp
-    · exact h.wfs_got _ (h.q_wfs _ (hnew p hp).2)
-  · show ((s.wgcs ++ s.queue.map (fun id => (s.now + 1, id))).map (·.2)).Nodup
-    rw [List.map_append, List.map_map]
-    have : (List.map ((fun x => x.2) ∘ fun id => (s.now + 1, id)) s.queue) = s.queue := by
-      simp [Function.comp_def]
-    rw [this, List.nodup_append]
-    refine ⟨h.wid_nd, h.q_nd, ?_⟩
-    intro a ha b hb hab
-    subst hab
-    exact h.q_wid a hb ha
-  · intro x hx; cases hx
-  · intro p hp
-    rcases List.mem_append.mp hp with hp | hp
-    · exact h.wgc_ok p hp
-    · have hw := h.q_wfs _ (hnew p hp).2
-      exact ⟨h.wfs_sent _ hw, Or.inl hw⟩
+    · exact c.wid_got p hp
+    · exact c.wfs_got _ (c.q_wfs _ (hnew p hp))
   · intro x hx
     right
     show x ∈ (s.wgcs ++ s.queue.map (fun id => (s.now + 1, id))).map (·.2)
     rw [List.map_append, List.mem_append]
-    rcases h.wfs_cov x hx with h1 | h1
+    rcases c.wfs_cov x hx with h1 | h1
     · right; exact List.mem_map.mpr ⟨(s.now + 1, x), List.mem_map.mpr ⟨x, h1, rfl⟩, rfl⟩
     · left; exact h1
-  · intro hlt
-    have := h.nt_emu hlt
-    have hne : s.nextTick ≠ s.now := by
-      have : s.now < s.nextTick := hlt
-      omega
-    exact (List.mem_erase_of_ne hne).mpr this
   · intro hf
-    rcases h.fin_cov hf with h1 | ⟨p, hp, hpn⟩
+    rcases h.fin_cov hf with h1 | h1
     · exact Or.inl h1
-    · exact Or.inr ⟨p, List.mem_append_left _ hp, hpn⟩
-  · intro e he; exact h.emu_sec e (List.mem_of_mem_erase he)
-  · intro p hp hn; exact h.r_soon p (hretry p hp hn) hn
-  · intro p hp hn q hq hqw
-    have hp' := hretry p hp hn
-    rcases List.mem_append.mp hq with hq | hq
-    · exact h.r_first p hp' hn q hq hqw
-    · have hq' := hnew q hq
-      have hne : s.queue ≠ [] := List.ne_nil_of_mem hq'.2
-      have := h.r_emu p hp' hn hne s.now hmem
-      show p.1 < q.1
-      omega
-  · intro p hp hn hc; exact absurd rfl hc
-  · intro p hp hn q hq hqn
-    exact h.r_one p (hretry p hp hn) hn q (hretry q hq hqn) hqn
+    · right
+      show s.wgcs ++ s.queue.map (fun id => (s.now + 1, id)) ≠ []
+      intro hc
+      exact h1 (List.append_eq_nil_iff.mp hc).1
 
-theorem einv_fireEmu {s : Emu} (h : EInv s) (t : Nat) (hok : EOk s (.emu t)) : EInv (fireEmu s t) := by
+theorem ninv_fireEmu {s : Emu} (h : NInv s) (t : Nat) : NInv (fireEmu s t) := by
+  have h2 : NInv { s with emus := s.emus.erase t, now := t } := ninv_frame h rfl rfl rfl rfl rfl rfl rfl
+  exact ninv_runEmu h2
+
+/-! ## time: what a time-ordered engine (any tie-break) adds -/
+
+structure ETime (s : Emu) : Prop where
+  P_pos : 0 < s.P
+  t_tick : ∀ t ∈ s.ticks, s.now ≤ t
+  t_emu : ∀ t ∈ s.emus, s.now ≤ t
+  t_wgc : ∀ p ∈ s.wgcs, s.now ≤ p.1
+  q_emu : s.queue ≠ [] → s.emus ≠ []
+  nt_emu : s.now < s.nextTick → s.nextTick ∈ s.emus
+
+theorem etime_init (P incap outcap : Nat) (hP : 0 < P) : ETime (einit P incap outcap) := by
+  constructor <;> simp [einit, hP]
+
+/-- `ETime` reads the clock, `nextTick`, the queue and the event lists; ticks and completion events
+    may be added as long as they are not in the past -/
+theorem etime_frame {s s' : Emu} (h : ETime s) (hP : s'.P = s.P) (hnow : s'.now = s.now)
+    (hnt : s'.nextTick = s.nextTick) (hq : s'.queue = s.queue) (he : s'.emus = s.emus)
+    (ht : ∀ t ∈ s'.ticks, s.now ≤ t) (hwg : ∀ p ∈ s'.wgcs, s.now ≤ p.1) : ETime s' := by
+  cases s; cases s'
+  simp only at hP hnow hnt hq he ht hwg
+  subst hP hnow hnt hq he
+  exact ⟨h.P_pos, ht, h.t_emu, hwg, h.q_emu, h.nt_emu⟩
+
+theorem etime_tickLater {s : Emu} (h : ETime s) : ETime (tickLater s) := by
+  have key : ∀ t ∈ s.ticks ++ [s.now + 1], s.now ≤ t := by
+    intro t ht
+    rcases mem_snoc.mp ht with ht | ht
+    · exact h.t_tick t ht
+    · omega
+  unfold tickLater
+  dsimp only
+  split
+  · split
+    · exact h
+    · exact etime_frame h rfl rfl rfl rfl rfl key h.t_wgc
+  · exact etime_frame h rfl rfl rfl rfl rfl key h.t_wgc
+
+theorem etime_fill {s : Emu} (h : ETime s) : ETime (fill s).1 := by
+  unfold fill
+  split
+  · exact h
+  · exact etime_frame h rfl rfl rfl rfl rfl h.t_tick h.t_wgc
+
+theorem etime_take {s : Emu} (h : ETime s) : ETime (take s).1 := by
+  unfold take
+  split
+  · exact h
+  · have h' : ETime { s with out := ‹List (List Nat)› } := etime_frame h rfl rfl rfl rfl rfl h.t_tick h.t_wgc
+    dsimp only
+    split
+    · exact etime_tickLater h'
+    · exact h'
+
+theorem etime_deliver {s : Emu} (h : ETime s) (id : Nat) : ETime (deliver s id).1 := by
+  unfold deliver
+  split
+  · exact h
+  · have h' : ETime { s with inbuf := s.inbuf ++ [id] } := etime_frame h rfl rfl rfl rfl rfl h.t_tick h.t_wgc
+    dsimp only
+    split
+    · exact etime_tickLater h'
+    · exact h'
+
+theorem minOK_iff (s : Emu) (t : Nat) : minOK s t = true ↔
+    (∀ x ∈ s.ticks, t ≤ x) ∧ (∀ x ∈ s.emus, t ≤ x) ∧ (∀ p ∈ s.wgcs, t ≤ p.1) := by
+  simp [minOK, and_assoc]
+
+/-- the clock advances to a time no pending event precedes -/
+theorem etime_advance {s : Emu} (h : ETime s) (t : Nat) (hm : minOK s t = true) (hle : s.now ≤ t) :
+    ETime { s with now := t } := by
+  obtain ⟨m1, m2, m3⟩ := (minOK_iff s t).mp hm
+  refine ⟨h.P_pos, m1, m2, m3, h.q_emu, ?_⟩
+  intro hlt
+  apply h.nt_emu
+  show s.now < s.nextTick
+  have : t < s.nextTick := hlt
+  omega
+
+theorem ceilP_dvd (P n : Nat) : P ∣ ceilP P n := ⟨(n + P - 1) / P, Nat.mul_comm _ _⟩
+
+theorem le_ceilP (P n : Nat) (hP : 0 < P) : n ≤ ceilP P n := by
+  unfold ceilP
+  have h1 := Nat.div_add_mod (n + P - 1) P
+  have h2 := Nat.mod_lt (n + P - 1) hP
+  have h3 : (n + P - 1) / P * P = P * ((n + P - 1) / P) := Nat.mul_comm _ _
+  omega
+
+/-- `processMapWGReq` at ANY time, whole seconds included: when `nextTick <= now` the emulation
+    event is scheduled for `Ceil(now) >= now` — possibly `now` itself, which a time-ordered engine
+    still fires after the current event -/
+theorem etime_procMap {s : Emu} (h : ETime s) : ETime (procMap s) := by
+  unfold procMap
+  split
+  · exact h
+  · rename_i id rest hin
+    dsimp only
+    by_cases hc : s.nextTick ≤ s.now
+    · simp only [hc, if_true]
+      refine ⟨h.P_pos, h.t_tick, ?_, h.t_wgc, ?_, ?_⟩
+      · intro e he
+        rcases mem_snoc.mp he with he | he
+        · exact h.t_emu e he
+        · rw [he]; exact le_ceilP _ _ h.P_pos
+      · intro _ hc'
+        exact absurd hc' (by simp)
+      · intro _
+        exact mem_snoc.mpr (Or.inr rfl)
+    · simp only [hc, if_false]
+      have hlt : s.now < s.nextTick := by omega
+      exact ⟨h.P_pos, h.t_tick, h.t_emu, h.t_wgc, fun _ => List.ne_nil_of_mem (h.nt_emu hlt), fun _ => h.nt_emu hlt⟩
+
+theorem etime_fireTick {s : Emu} (h : ETime s) (t : Nat) (hok : Legal s (.tick t)) : ETime (fireTick s t) := by
   obtain ⟨hmem, hm⟩ := hok
-  have hle : s.now ≤ t := h.t_emu t hmem
-  have h1 := einv_advance h t hm hle
-  exact einv_runEmu h1 hmem
+  have h1 := etime_advance h t hm (h.t_tick t hmem)
+  have h2 : ETime { s with ticks := s.ticks.erase t, now := t } :=
+    etime_frame h1 rfl rfl rfl rfl rfl (fun x hx => h1.t_tick x (List.mem_of_mem_erase hx)) h1.t_wgc
+  exact etime_procMap h2
+
+theorem etime_fireEmu {s : Emu} (h : ETime s) (t : Nat) (hok : Legal s (.emu t)) : ETime (fireEmu s t) := by
+  obtain ⟨hmem, hm⟩ := hok
+  have h1 := etime_advance h t hm (h.t_emu t hmem)
+  show ETime (runEmu { s with emus := s.emus.erase t, now := t })
+  unfold runEmu
+  refine ⟨h.P_pos, h1.t_tick, ?_, ?_, fun hc => absurd rfl hc, ?_⟩
+  · intro e he; exact h1.t_emu e (List.mem_of_mem_erase he)
+  · intro p hp
+    rcases List.mem_append.mp hp with hp | hp
+    · exact h1.t_wgc p hp
+    · obtain ⟨x, _, rfl⟩ := List.mem_map.mp hp
+      show t ≤ t + 1
+      omega
+  · intro hlt
+    have hlt' : t < s.nextTick := hlt
+    have hne : s.nextTick ≠ t := by omega
+    have := h1.nt_emu hlt
+    exact (List.mem_erase_of_ne hne).mpr this
 
 end C09.CUSide
